@@ -188,7 +188,9 @@ DataReceived(x, ms) ==
   ELSE IF x.cs = "closed" THEN
        \* frames behind the closing frame are not dispatched; the Noise helper, closed by then, refuses them
        \* with a protocol error, which becomes the connection's fatal cause if it has none yet
-       IF x.cfg.noise THEN [x EXCEPT !.fatal = IF @ = "none" THEN "ProtocolAPIError" ELSE @] ELSE x
+       \* (a helper the connection had not been given yet when it closed is still open: it decrypts the frames,
+       \* the closed connection ignores them)
+       IF x.cfg.noise /\ x.fh = "closed" THEN [x EXCEPT !.fatal = IF @ = "none" THEN "ProtocolAPIError" ELSE @] ELSE x
   ELSE LET y == ProcessPacket(x, Head(ms)) IN
        IF Head(ms).k = "garbage" THEN y       \* the exception aborts the chunk
        ELSE DataReceived(y, Tail(ms))
